@@ -101,10 +101,14 @@ def classify_probe_failure(probe, exp, got):
     return "other"
 
 
-def check_form(ctx, form, probes, tag="gen"):
+def check_form(ctx, form, probes, tag="gen", expect_reject=False):
     case = {"kind": "form", "form": form, "probes": probes}
     r = impl.run(form)
     ctx.count(f"form:{r['class']}")
+    if expect_reject:
+        # a cell with a character that is not an XML Char: the only outcomes compatible with the property are a
+        # located rejection (PyXFormError) - anything converted is judged by the oracles below
+        ctx.count("f4:" + ("rejected" if r["class"] == "pyxform" else r["class"]))
     if not r["ok"]:
         if r["class"] == "internal":
             ctx.count("internal:" + r.get("site", "?"))
@@ -228,6 +232,8 @@ def impl_channel(kind, tag, s, attrname="v"):
             return {"err": "pyxform", "msg": str(e)}
         try:
             el = node(tag, text, toParseString=changed)
+        except PyXFormError as e:
+            return {"err": "pyxform", "msg": str(e)}
         except Exception as e:  # noqa: BLE001 expat error on the re-parse
             return {"err": "reparse", "msg": f"{type(e).__name__}: {e}"}
         return {"xml": el.toxml(), "inserted": text, "changed": changed}
@@ -247,7 +253,9 @@ def corr_case(ctx, kind, s):
         return
     ctx.count("corr:in_fragment")
     if "err" in i or m.get("err"):
-        if i.get("err") != m.get("err"):
+        # observation level: is there an element at all?  (Which exception class a rejection uses is C17's
+        # business; a crash of the re-parse is judged by the oracle just below.)
+        if bool(i.get("err")) != bool(m.get("err")):
             ctx.mismatch(f"chan.{kind}: outcome", case, i, m)
         if i.get("err") == "reparse":
             # oracle, function level: the channel crashed on user text (an internal error, not a PyXFormError)
@@ -269,9 +277,32 @@ def corr_case(ctx, kind, s):
         ctx.mismatch(f"chan.{kind}: model output does not parse to the spec", case, m.get("parsed"), m.get("spec"))
     # oracle on the implementation's element (function level)
     if it is None:
-        sig = "not-wellformed:nonxml-char" if any(not F.is_xml_char(c) for c in s) else "not-wellformed:other"
-        ctx.fail(Failure("not-wellformed", f"node() output not well-formed for {s!r}: {ierr}", case, signature=sig))
+        if any(not F.is_xml_char(c) for c in s):
+            # node() itself does not check characters; validate_xml_document does, on the finished document
+            # (directed stream `f4`): nothing to decide at function level
+            ctx.count("corr:nonxml_left_to_document_check")
+        else:
+            ctx.fail(Failure("not-wellformed", f"node() output not well-formed for {s!r}: {ierr}", case, signature="not-wellformed:other"))
     ctx.record(case, any(c in s for c in "<>&\"'"))
+
+
+BOUNDARY_CHARS = [0x0, 0x1, 0x8, 0x9, 0xA, 0xB, 0xC, 0xD, 0xE, 0x1F, 0x20, 0x7F, 0x85, 0xA0, 0xD7FF, 0xE000, 0xFFFD, 0xFFFE, 0xFFFF,
+                  0x10000, 0x1FFFE, 0x10FFFF]
+
+
+def validchars_case(ctx, s):
+    """`_validate_xml_chars` (INVALID_XML_CHAR_REGEX) vs Chan.validChars"""
+    import pyxform.utils as U
+
+    rx = getattr(U, "INVALID_XML_CHAR_REGEX", None)
+    if rx is None:
+        ctx.count("validchars:regex_absent")
+        return
+    i = rx.search(s) is None
+    m = ctx.driver.call("chan.validchars", s=s)
+    ctx.count("corr:validchars")
+    if i != m:
+        ctx.mismatch("validChars vs INVALID_XML_CHAR_REGEX", {"kind": "validchars", "s": s}, i, m)
 
 
 def corr_string(rng):
@@ -305,13 +336,13 @@ def corr_string(rng):
 def directed(ctx):
     base = [{"type": "text", "name": "a", "label": "A"}, {"type": "integer", "name": "b2", "label": "B"}]
 
-    def one(parts, chan="label", extra=None):
+    def one(parts, chan="label", extra=None, expect_reject=False):
         row = {"type": "text", "name": "q0", "label": "L"}
         row[chan] = F.cell_text(parts)
         row.update(extra or {})
         form = {"survey": [*copy.deepcopy(base), row]}
         probes = [{"id": 0, "chan": chan, "where": {"xpath": "/data/q0"}, "lang": None, "parts": parts, "sheet": "survey", "row": 2, "col": chan}]
-        check_form(ctx, form, probes, "directed")
+        check_form(ctx, form, probes, "directed", expect_reject=expect_reject)
 
     # F15: a boolean/math word operator after an instance() path
     for op in (" and ", " or ", " div ", " mod "):
@@ -323,13 +354,14 @@ def directed(ctx):
     # double escaping of the instance expression's own text
     for lit in ("name < 3", "name > 3", "name = 'a&b'", "name = \"<x>\""):
         one([["t", "x "], ["i", f"instance('l')/root/item[{lit}]/label", None, ""], ["t", " y"]])
-    # F4: characters that are not XML characters, in several channels
+    # F4 (fixed by validate_xml_document): characters that are not XML characters, in several channels, must be
+    # rejected; never a not-well-formed document
     for c in F.NON_XML[:6] + F.NON_XML[7:]:
         for chan in ("label", "hint", "constraint_message", "default", "appearance", "bind::foo"):
             if ctx.quick() and ctx.rng.random() < 0.7:
                 continue
-            one([["t", f"a{c}b"]], chan=chan)
-    one([["t", "a\x01b "], ["r", "a"], ["t", " c"]])
+            one([["t", f"a{c}b"]], chan=chan, expect_reject=True)
+    one([["t", "a\x01b "], ["r", "a"], ["t", " c"]], expect_reject=True)
     # line ends and attribute-value normalisation (must pass modulo the documented normalisation)
     for chan in ("label", "hint", "constraint_message", "default", "appearance", "bind::foo", "body::bar", "required_message"):
         one([["t", "l1\r\nl2\rl3\nl4\tl5  l6"]], chan=chan)
@@ -355,6 +387,14 @@ def explore(ctx, factor, bs):
         if rng.random() < 0.03:
             s += rng.choice(["\r", "\r\n", "\t", "\n"]) + F.adv(rng, 2)
         corr_case(ctx, kind, s)
+    for n in BOUNDARY_CHARS:
+        validchars_case(ctx, f"a{chr(n)}b")
+    for _ in range(ctx.pick(300, 5000) * factor):
+        s = F.adv(rng, 4)
+        if rng.random() < 0.5:
+            k = rng.randint(0, len(s))
+            s = s[:k] + chr(rng.choice(BOUNDARY_CHARS)) + s[k:]
+        validchars_case(ctx, s)
     for c in ("\x01", "￾"):
         for kind in ("text", "attr", "mixed"):
             corr_case(ctx, kind, f"a{c}b" + (" ${a}" if kind == "mixed" else ""))
@@ -372,7 +412,9 @@ def replay(ctx, payload, bs):
     case = payload["case"]
     before = len(ctx.failures)
     ctx.notes["_lean_parse_rate"] = 1.0
-    if case["kind"] == "form":
+    if case["kind"] == "validchars":
+        validchars_case(ctx, case["s"])
+    elif case["kind"] == "form":
         check_form(ctx, case["form"], case["probes"], "replay")
     else:
         corr_case(ctx, case["chan"], case["s"])
@@ -381,7 +423,9 @@ def replay(ctx, payload, bs):
 
 
 MATCHERS = {
-    "F4-non-xml-char": lambda f: f.signature in ("not-wellformed:nonxml-char", "reparse-crash:nonxml-char"),
+    # F4 proper (non-XML character written raw -> not well-formed) is fixed by validate_xml_document (4f1a33e):
+    # no matcher, so that it comes back as a VIOLATION.  Still open: the re-parse of the mixed channel runs before that check.
+    "F4-reparse-non-xml-char": lambda f: f.signature == "reparse-crash:nonxml-char",
     "F15-instance-op-swallow": lambda f: f.signature in ("structure:instance-op-swallow", "not-recovered:instance-op-swallow", "shape:instance-op-swallow"),
     "F39-instance-double-escape": lambda f: f.signature in ("structure:instance-double-escape", "not-recovered:instance-double-escape", "shape:instance-double-escape"),
     "F40-instance-hidden-by-quote": lambda f: f.signature in ("structure:instance-hidden-by-quote", "not-recovered:instance-hidden-by-quote", "shape:instance-hidden-by-quote"),
